@@ -62,6 +62,63 @@ func matchOnce(p, f interface{}, bs match.Bindings) (o map[string]interface{}, b
 
 func mapPtr(m interface{}) uintptr { return reflect.ValueOf(m).Pointer() }
 
+// mapPool holds map objects of earlier patterns, by number of keys.  recycle rebuilds a pattern
+// out of them: same value as a fresh pattern, but living in objects that earlier matches have
+// already seen with other contents (a caller re-using its maps; what address re-use after a
+// collection does without any caller's help).  A matcher that is a function of its arguments
+// cannot tell the difference.
+var mapPool = map[int][]map[string]interface{}{}
+var recycledMaps int
+
+func recycle(v interface{}, used *[]map[string]interface{}) interface{} {
+	switch vv := v.(type) {
+	case map[string]interface{}:
+		var m map[string]interface{}
+		if l := mapPool[len(vv)]; len(l) > 0 {
+			m, mapPool[len(vv)] = l[len(l)-1], l[:len(l)-1]
+			for k := range m {
+				delete(m, k)
+			}
+			recycledMaps++
+		} else {
+			m = make(map[string]interface{}, len(vv))
+		}
+		for k, x := range vv {
+			m[k] = recycle(x, used)
+		}
+		*used = append(*used, m)
+		return m
+	case []interface{}:
+		acc := make([]interface{}, len(vv))
+		for i, x := range vv {
+			acc[i] = recycle(x, used)
+		}
+		return acc
+	}
+	return v
+}
+
+// pureProbe: the outcome on a pattern built from recycled map objects is one of the outcomes on
+// the fresh pattern.
+func pureProbe(c gen.MatchCase, seen map[string]bool, reps int) bool {
+	var used []map[string]interface{}
+	p := recycle(c.P, &used)
+	ok := true
+	for i := 0; i < reps; i++ {
+		bs := match.Bindings(gen.DeepCopy(c.Bs).(map[string]interface{}))
+		o, _ := matchOnce(p, c.F, bs)
+		if !seen[gen.Canon(o)] {
+			ok = false
+		}
+	}
+	for _, m := range used {
+		if len(mapPool[len(m)]) < 64 {
+			mapPool[len(m)] = append(mapPool[len(m)], m)
+		}
+	}
+	return ok
+}
+
 func runMatchCase(id int, c gen.MatchCase, reps int, crashed bool, probe bool) (matchLine, map[string]bool) {
 	line := matchLine{Op: "match", Id: id, P: c.P, F: c.F, Bs: c.Bs, Planted: c.Planted, Profile: c.Profile}
 	if crashed {
@@ -210,6 +267,9 @@ func runMatch(cfg Config) {
 		}
 		mark(i)
 		line, seen := runMatchCase(i, c, cfg.Reps, cfg.Crashed[i], cfg.Profile == "c03")
+		if cfg.Profile == "c03" && !cfg.Crashed[i] {
+			line.Probe["pure"] = pureProbe(c, seen, cfg.Reps)
+		}
 		if cfg.Profile == "c03" && !cfg.Crashed[i] && i%16 == 1 && len(seen) == 1 {
 			// only where the sequential outcome is unique is "same result as alone" well defined
 			line.Probe["concurrent"] = concurrentProbe(c, seen)
